@@ -129,7 +129,7 @@ def norm(n):
                 it = n['scrut']['args'][0]
                 loop = n['arms'][0]['body']
                 inner = loop['body']['stmts'][0]['e'] if loop['body']['stmts'] else loop['body']['expr']
-                some_arm = [a for a in inner['arms'] if a['pat'].get('k') == 'PTupleStruct' or a['pat'].get('k') == 'PStruct'][0]
+                some_arm = [a for a in inner['arms'] if a['pat'].get('k') in ('PTupleStruct', 'PStruct') and (a['pat'].get('def') or '').endswith('::Some')][0]
                 pat = some_arm['pat']
                 if pat.get('k') == 'PTupleStruct':
                     pat = pat['pats'][0]
